@@ -40,7 +40,7 @@ def generate(seed, tier="quick"):
     prof = V.draw_profile(sub(seed, "profile"), max_depth=2)
     prof.special = [s for s in prof.special if s not in ("norepr", "complex")]
     prog = W.gen_program(rng, prof, {"prev": ["edit", "edit", "superset", "subset", "slack", "wrong", "other", "none", "same"], "n_sites": (1, 4),
-                                     "n_tests": (1, 2), "styles": ["rec"], "hand": 0.7, "ops": ["eq", "eq", "in", "in", "item", "le", "ge"]})
+                                     "n_tests": (1, 2), "styles": ["rec"], "hand": 0.7, "ops": ["eq", "eq", "in", "in", "item", "le", "ge"], "idle": 0.2})
     # unused + hand-written elements in `in` lists and dict sub-snapshots (trim next to update)
     xr = sub(seed, "extra")
     for f in prog["files"]:
